@@ -23,6 +23,11 @@ def make_specs():
     return out
 
 
+def lemmas():
+    from specs import c14
+    return c14.lemmas()
+
+
 EXPECTED_CLAUSES = ["post[table:pair:IN_MOVED_FROM+IN_MOVED_TO|ISDIR,recursive:every sub-event queued once", "post[table:single:IN_CREATE:event0=FileCreatedEvent(path,'')]", "post[table:single:IN_CREATE|ISDIR:event1=DirModifiedEvent(parent,'')]",
                     "post[table:single:IN_MOVED_FROM,full:event0=FileMovedEvent(path,'')]", "post[table:single:IN_MOVED_TO|ISDIR,recursive:synthetic sub-events generated", "post[table:single:IN_IGNORED:count]",
                     "post[table:single:IN_DELETE_SELF,root:emitter stops iff", "post[table:single:IN_CLOSE_WRITE:event1=DirModifiedEvent(parent,'')]", "post[no record: nothing queued]"]
